@@ -37,7 +37,19 @@ def import_cases(tmp):
   with open(os.path.join(root, 'lib', 'a', 'one.l'), 'w') as f:
     f.write('H(x) :- x == 3;\n')
   files = {'lib/a/util.l': 'F(x) :- x == 1;\n', 'lib/b/util.l': 'G(x) :- x == 2;\n', 'lib/a/one.l': 'H(x) :- x == 3;\n'}
-  return root, files, [
+  # file names whose prefix (capitalised base name) is not just "first letter upper": helper predicates of the
+  # imported file are renamed with that prefix
+  for base in ('geoUtil', 'GEO', 'x_y', 'u2B', 'mIxEd'):
+    body = 'Area%s(x) :- Unit(x), Unit(y);\nUnit(x) :- x == 1;\n' % base.replace('_', '')
+    files['lib/a/%s.l' % base] = body
+    with open(os.path.join(root, 'lib', 'a', base + '.l'), 'w') as f:
+      f.write(body)
+  cased = [('import:file-name-case:%s' % base,
+            'import lib.a.%s.Area%s;\nQ(x) :- Area%s(x);\n' % (base, base.replace('_', ''), base.replace('_', '')))
+           for base in ('geoUtil', 'GEO', 'x_y', 'u2B', 'mIxEd')]
+  cased.append(('import:file-name-case:two', 'import lib.a.geoUtil.AreageoUtil;\nimport lib.a.GEO.AreaGEO;\n'
+                'Q(x) :- AreageoUtil(x), AreaGEO(x);\n'))
+  return root, files, cased + [
       ('import:single', 'import lib.a.one.H;\nQ(x) :- H(x);\n'),
       ('import:two-files', 'import lib.a.one.H;\nimport lib.b.util.G;\nQ(x) :- H(x), G(x);\n'),
       ('import:same-base-name', 'import lib.a.util.F;\nimport lib.b.util.G;\nQ(x) :- F(x), G(x);\n'),
